@@ -26,6 +26,7 @@ from ..loader import where, AnalysisError
 from ..paths import Enumerator
 from ..terms import Terms, PathEnv
 from .. import poly
+from .c02 import body_fn
 
 
 # ------------------------------------------------------------------ R1
@@ -493,18 +494,41 @@ def r3_crowding(ctx, repo):
     else:
         ctx.inconclusive("R3", C, where(mod, obj_loop), "sorting step not recognised", key="sort-by-objective")
 
-    # boundaries infinite
-    inf_idx = set()
-    for s_ in obj_loop.body:
-        if isinstance(s_, ast.Assign) and text(T.expand(s_.value, at=s_)) in INF_TEXTS and is_cd(s_.targets[0]) is not None:
-            mx = T.expand(is_cd(s_.targets[0]), at=s_)
+    # boundaries infinite: on every path through one round of the objective loop both ends of the sorted front get inf
+    def inf_positions(stmt):
+        out = set()
+        if isinstance(stmt, ast.Assign) and text(T.expand(stmt.value, at=stmt)) in INF_TEXTS and is_cd(stmt.targets[0]) is not None:
+            mx = T.expand(is_cd(stmt.targets[0]), at=stmt)
             if isinstance(mx, ast.Subscript) and access_path(mx.value) == front:
                 t_ = text(mx.slice).replace(" ", "")
                 if t_ in ("0",):
-                    inf_idx.add("0")
+                    out.add("0")
                 if t_ in ("-1", "len(%s)-1" % front):
-                    inf_idx.add("-1")
-    ctx.check(inf_idx == {"0", "-1"}, "R3", C, where(mod, obj_loop), "extreme members of each objective (positions 0 and -1 after sorting) get inf: found %s" % sorted(inf_idx), key="boundary-inf")
+                    out.add("-1")
+        return out
+    missing = None
+    nrounds = 0
+    for p_ in Enumerator(loop_counts=(0, 1)).function_paths(body_fn(obj_loop.body, fn.args, obj_loop.lineno)):
+        if p_.outcome == "raise":
+            continue
+        nrounds += 1
+        got = set()
+        for e_ in p_.events:
+            if e_.kind == "stmt":
+                got |= inf_positions(e_.node)
+        if got != {"0", "-1"}:
+            missing = missing or (p_, got)
+    after = [s_ for s_ in fn.body[fn.body.index(obj_loop) + 1:] if inf_positions(s_)] if obj_loop in fn.body else []
+    if missing is None and nrounds:
+        ctx.holds("R3", C, where(mod, obj_loop), "both ends of the front sorted by the current objective get inf on all %d paths of a round" % nrounds, key="boundary-inf")
+    elif missing is not None and after:
+        ctx.violated("R3", C, where(mod, after[0]), "the ends of the sorted front are set to inf only after the objective loop (line %d): only the extremes of the LAST objective become "
+                     "infinite, the extremes of the other objectives keep a finite distance and can be truncated away" % after[0].lineno, key="boundary-inf")
+    elif missing is not None:
+        ctx.violated("R3", C, where(mod, obj_loop), "extreme members of each objective (positions 0 and -1 after sorting) get inf: found %s on the path [%s]"
+                     % (sorted(missing[1]), missing[0].describe(4)), key="boundary-inf")
+    else:
+        ctx.inconclusive("R3", C, where(mod, obj_loop), "no path through the objective loop body", key="boundary-inf")
 
     # interior loop
     inner = [s_ for s_ in obj_loop.body if isinstance(s_, ast.For)]
